@@ -13,7 +13,7 @@ VARIABLE l
 tvars == <<vars, l>>
 TraceLog == ndJsonDeserialize("trace.ndjson")
 Ev == TraceLog[l]
-IsEvent(e) == l <= Len(TraceLog) /\ Ev.ev = e /\ l' = l + 1
+IsEvent(e) == l <= Len(TraceLog) /\ Ev.ev = e /\ "apierr" \notin DOMAIN Ev /\ l' = l + 1
 
 FilesOK ==
     \A k \in Keys :
